@@ -708,7 +708,10 @@ class EvolutionSuperOperator(SuperOperator, TimeDependent, Saveable):
         """
 
         if time is not None:
-            ti, dt = self.time.locate(time)
+            # the grid point closest to the requested time (locate() returns the
+            # lower neighbor, which for a time on the grid can be the previous
+            # point because of rounding)
+            ti = self.time.nearest(time)
 
             # the superoperator handed out gets its own copy of the data: it
             # is basis managed and transformed in place, which must not 
@@ -744,7 +747,10 @@ class EvolutionSuperOperator(SuperOperator, TimeDependent, Saveable):
             #
             # Apply at a single point in time and return ReducedDensityMatrix
             #
-            ti, dt = self.time.locate(time)
+            # the grid point closest to the requested time (locate() returns the
+            # lower neighbor, which for a time on the grid can be the previous
+            # point because of rounding)
+            ti = self.time.nearest(time)
             if copy:
                 import copy
                 oper_ven = copy.copy(target)
